@@ -412,6 +412,8 @@ def _is_tiny(f):
         for st in blk["stmts"]:
             if st.get("k") == "=" and st["rv"].get("k") == "agg" and st["rv"].get("closure"):
                 return False
+            if st.get("k") in ("=", "setdiscr") and st["lhs"]["p"]:
+                return False        # writes through a reference / into a field: an action, not a predicate or accessor
     return n <= TINY_BLOCKS
 
 
